@@ -7,12 +7,12 @@ for id in $ids; do
   git -C /repo checkout -- . 2>/dev/null
   if ! git -C /repo apply seeded/$id/patch.diff 2>/dev/null && ! git -C /repo apply /verif/seeded/$id/patch.diff; then echo "$id patch-does-not-apply" >> seeded/RESULTS.txt; continue; fi
   t0=$(date +%s)
-  timeout 2400 ./check $id --tier quick > /tmp/seed-$id-quick.log 2>&1; q=$?
+  timeout 2400 ./check ${id:0:3} --tier quick > /tmp/seed-$id-quick.log 2>&1; q=$?
   tq=$(( $(date +%s) - t0 ))
   th=-; tt=0
   if [ $q -ne 1 ] && [ -z "$QUICK_ONLY" ]; then
     t1=$(date +%s)
-    timeout 5400 ./check $id --tier thorough > /tmp/seed-$id-thorough.log 2>&1; th=$?
+    timeout 5400 ./check ${id:0:3} --tier thorough > /tmp/seed-$id-thorough.log 2>&1; th=$?
     tt=$(( $(date +%s) - t1 ))
   fi
   git -C /repo checkout -- .
